@@ -92,15 +92,16 @@ def _eval(res, name, m, gname, shape, opts, v, stats, observed=None):
     # (i') the generator is given the full number in these rows and compacts it itself: presentations that validate()
     # accepts as this very number must give the same check characters
     if arg == v and not gkw and opts.get('spellings', True):
-        for sname, sp in _spellings(m, v, kw):
-            g3 = _gen(f, sp, gkw)
-            stats['evals'] += 1
-            if g3[0] != 'ok':
-                continue        # this generator does not take presentations (nothing says it should)
-            if g3 != g:
-                res.viol(ID, 'generator-depends-on-spelling', name, gname, dict(case, clause="i'", spelling=sp),
-                         '%s(%r) -> %r but %s(%r) -> %r (validate() reads both as %r)' % (gname, v, g[1], gname, sp, g3[1], v),
-                         'same check characters', devclass=sname, rank=[1, len(sp), sp])
+        sps = [(sname, sp, _gen(f, sp, gkw)) for sname, sp in _spellings(m, v, kw)]
+        stats['evals'] += len(sps)
+        # a generator that fails on some accepted presentation does not take presentations at all (nothing says it
+        # should); one that handles them all must compute the same check characters for all of them
+        if sps and all(g3[0] == 'ok' for _n, _s, g3 in sps):
+            for sname, sp, g3 in sps:
+                if g3 != g:
+                    res.viol(ID, 'generator-depends-on-spelling', name, gname, dict(case, clause="i'", spelling=sp),
+                             '%s(%r) -> %r but %s(%r) -> %r (validate() reads both as %r)' % (gname, v, g[1], gname, sp, g3[1], v),
+                             'same check characters', devclass=sname, rank=[1, len(sp), sp])
     # (ii) alternatives at the check positions
     alphabet = set(e2.D)
     for p in pos:
